@@ -60,6 +60,15 @@ def run(ck):
                         "their label-number offset (as C02.4)")
     from .c02 import fragments_reach_second_pass
     fragments_reach_second_pass(ck, "C03.10")
+    ck.clause("C03.11", "labels and pairs are ordered by coordinate, never by label number (which descends on the reverse strand): the "
+                        "overlap tests of conflict resolution see a query-axis overlap on both strands (as C15.7 / C11.6)")
+    from .c15 import comparators
+    from .c11 import position_order
+    comparators(ck, "C03.11")
+    position_order(ck, "C03.11")
+    ck.clause("C03.12", "no label is paired twice: de-duplication groups candidates over a sort by the same key (as C01.4)")
+    from .c01 import dedupe
+    dedupe(ck, "C03.12")
     ck.clause("C03.9", "two segments of a record never keep the same label: each overlapping sub-run is cut at the index from "
                        "its own index table (as C15.5) - a label listed twice stalls the HitEnum walk")
     from . import c15
